@@ -11,9 +11,16 @@ def mk(kind, v, t):
         return TriaMesh(v, t) if kind == "tri" else TetMesh(v, t)
 
 
-def run_diffusion(kind, v, t, vids, m, aniso=None):
+def run_diffusion(kind, v, t, vids, m, aniso=None, reuse=False):
     geo = mk(kind, v, t)
     with core.quiet():
+        if reuse:
+            # an earlier call on the same object, then an in-place change of the vertices: the second call must see the current mesh
+            heat.diffusion(geo, vids, m=m) if aniso is None else heat.diffusion(geo, vids, m=m, aniso=aniso)
+            if kind == "tri":
+                geo.normalize_()
+            else:
+                geo.v = 1.7 * geo.v
         with capture.capture() as calls:
             u = heat.diffusion(geo, vids, m=m) if aniso is None else heat.diffusion(geo, vids, m=m, aniso=aniso)
     return geo, calls, np.asarray(u, dtype=float)
@@ -50,7 +57,7 @@ class Check(BaseCheck):
                     continue
                 n = len(c["v"])
                 vids = [int(x) for x in rng.choice(n, size=int(rng.integers(1, 4)))]
-                yield dict(kind=kind, v=c["v"], t=c["t"], vids=vids, m=float(rng.uniform(0.1, 5.0)), name=c["name"])
+                yield dict(kind=kind, v=c["v"], t=c["t"], vids=vids, m=float(rng.uniform(0.1, 5.0)), name=c["name"], reuse=bool(rng.random() < 0.3))
         from .. import corr_fem
         for c in corr_fem.aniso_meshes(seed + 73, max(3, n_tri // 5)):
             n = len(c["v"])
@@ -68,7 +75,11 @@ class Check(BaseCheck):
                        sample=dict(kind=case["kind"], name=case["name"], n=n, vids=case["vids"], m=case["m"]))
             try:
                 aniso = case.get("aniso")
-                geo, calls, u = run_diffusion(case["kind"], v, t, case["vids"], case["m"], tuple(aniso) if isinstance(aniso, list) else aniso)
+                reuse = bool(case.get("reuse"))
+                geo, calls, u = run_diffusion(case["kind"], v, t, case["vids"], case["m"], tuple(aniso) if isinstance(aniso, list) else aniso, reuse)
+                if reuse:
+                    v = np.array(geo.v, dtype=float); n = len(v)
+                    stats.monitor("diffusion repeated on the same object after an in-place vertex change")
             except Exception as e:  # noqa: BLE001
                 fails.append(core.Failure("correspondence", "diffusion vs model", "impl raised %s: %s" % (type(e).__name__, e), case))
                 continue
@@ -165,6 +176,15 @@ class Check(BaseCheck):
                     fa = Solver(mk(kind, v, t), aniso=aniso)      # anisotropic stiffness (independent of the mass option)
         except Exception as e:  # noqa: BLE001
             return core.Violation("runs", "diffusion raised %s: %s" % (type(e).__name__, e), case)
+        if case.get("reuse"):
+            try:
+                g2, _, u2 = run_diffusion(kind, v, t, vids, m, aniso, reuse=True)
+                uf = run_diffusion(kind, np.array(g2.v, dtype=float), t, vids, m, aniso)[2]
+            except Exception as e:  # noqa: BLE001
+                return core.Violation("runs", "repeated diffusion raised %s: %s" % (type(e).__name__, e), case)
+            if np.max(np.abs(u2 - uf)) > 1e-5 * max(np.abs(uf).max(), 1e-30):
+                return core.Violation("system", "diffusion on a mesh object that was used before and then changed in place differs from diffusion on a fresh "
+                                      "mesh with the same vertices (rel. dev %.3g)" % (np.max(np.abs(u2 - uf)) / max(np.abs(uf).max(), 1e-30)), case)
         n = len(v)
         A = (fem if aniso is None else fa).stiffness.astype(float); B = fem.mass.astype(float)
         b = np.zeros(n); b[vids] = 1.0
